@@ -2,6 +2,7 @@
 """kf_add.py ID PROPERTY 'cell glob' 'failure class' FLAVOUR 'what' [witness.json]  -- adds/replaces an open known finding, pinned = the witness' case"""
 import sys, json
 id_, prop, cell, failure, flavour, what = sys.argv[1:7]
+if flavour=='*': flavour='any'
 pinned=None
 if len(sys.argv)>7:
     w=json.load(open(sys.argv[7])); pinned=w['case']; pinned['id']='pinned-'+id_
